@@ -741,3 +741,128 @@ def conservation_clause(vals, kind, num, limiter, bcL, bcR):
                     show(kind=kind, num=num, limiter=limiter, flux=flux, bc=(bcL, bcR), n=n, comp=k, integral=I, boundary=bnd)
                     ok = False
     return ok
+
+
+# --------------------------------------------------------------------------------------
+# C03
+
+def _matched(name, g, W):
+    pt, rt = _tot(g, W)
+    d = {"type": name}
+    if name in ("insub", "insub_cbc", "insup"):
+        d.update({"ptot": pt, "rttot": rt})
+    if name in ("insup", "outsub", "outsub_prim", "outsub_qtot", "outsub_rh", "outsub_nrcbc"):
+        d["p"] = W[2]
+    return d
+
+
+def bc_fixed_point(vals, bc, dir):
+    import flowdyn.modelphy.euler as eu
+    g = num_or(vals, "gamma", 1.4)
+    W = [num_or(vals, "W0", 1.2), num_or(vals, "W1", -0.4 * dir if bc.startswith("in") else 0.4 * dir), num_or(vals, "W2", 0.9)]
+    if W[0] <= 0 or W[2] <= 0:
+        return True
+    a = math.sqrt(g * W[2] / W[0])
+    if bc in ("insub", "insup") and not (-dir * W[1] >= 0):
+        return True
+    if bc == "insub_cbc" and not (dir * W[1] <= a):
+        return True
+    if bc == "outsub_qtot" and not (dir * W[1] >= 0):
+        return True
+    m = eu.euler1d(gamma=g)
+    out = [float(x) for x in m.namedBC(bc, dir, [np.float64(w) for w in W], _matched(bc, g, W))]
+    show(bc=bc, dir=dir, W=W, out=out)
+    return close(out, W)
+
+
+def uniform_clause(vals, kind, num, limiter, bcL, bcR):
+    import flowdyn.mesh as mesh, flowdyn.modeldisc as md, flowdyn.field as field
+    g = num_or(vals, "gamma", 1.4)
+    W = [num_or(vals, "W%d" % k, DEFAULT_STATE[kind][k]) for k in range(NCOMP[kind])]
+    if kind == "nozzle":
+        W[1] = 0.0
+    if kind in ("euler1d", "nozzle"):
+        if bcL in ("insub", "insup") and W[1] < 0:
+            W[1] = -W[1]
+        if bcR == "outsub_qtot" and W[1] < 0:
+            W[1] = -W[1]
+    ok = True
+    for n in (1, 2, 3, 8):
+        model = build_model(kind, vals, sectionlaw=lambda x: 1.0 + 0.3 * np.sin(3 * x))
+        msh = mesh.morphedmesh(ncell=n, length=1.0, morph=lambda x: x + 0.4 * x * x)
+        bl, br = {"type": bcL}, {"type": bcR}
+        if bcL == "dirichlet":
+            bl["prim"] = br["prim"] = [np.float64(w) for w in W]
+        if kind in ("euler1d", "nozzle") and bcL not in ("per", "dirichlet"):
+            bl, br = _matched(bcL, g, W), _matched(bcR, g, W)
+        fluxes = [None] if kind in ("convection", "burgers") else list(model._numfluxdict.dict.keys())
+        for flux in fluxes:
+            disc = md.fvm1d(model, msh, _make_num(num, limiter, 0.2), numflux=flux, bcL=bl, bcR=br)
+            Q = cons_arrays(kind, prim_to_cons(kind, W, vals), n)
+            res = disc.rhs(field.fdata(model, msh, Q))
+            sc = max(1.0, max(abs(w) for w in W)) ** 3 * 10
+            for k, r in enumerate(res):
+                if not (np.all(np.isfinite(r)) and np.max(np.abs(r)) <= 1e-9 * sc * n * n):
+                    show(kind=kind, num=num, limiter=limiter, flux=flux, bc=(bcL, bcR), n=n, comp=k, residual=np.asarray(r).tolist()[:4])
+                    ok = False
+    return ok
+
+
+# --------------------------------------------------------------------------------------
+# C19
+
+def source_clause(vals, kind, pattern):
+    import flowdyn.mesh as mesh, flowdyn.modeldisc as md, flowdyn.field as field, flowdyn.xnum as xnum
+    n = 6
+    msh = mesh.morphedmesh(ncell=n, length=1.0, morph=lambda x: x + 0.4 * x * x)
+    law = lambda x: 1.0 + 0.3 * np.sin(3 * x)
+    calls = []
+
+    def mk(k):
+        def f(x, q):
+            calls.append(k)
+            return (k + 1.0) * np.cos(x) + 0.1 * q[0]
+        return f
+    src = None if pattern is None else [mk(k) if b else None for k, b in enumerate(pattern)]
+    P = _random_prim(kind, n, seed=3)
+    try:
+        m0 = build_model(kind, vals, sectionlaw=law)
+        m1 = build_model(kind, vals, source=src, sectionlaw=law)
+        d0 = md.fvm1d(m0, msh, xnum.extrapol2())
+        d1 = md.fvm1d(m1, msh, xnum.extrapol2())
+        Q = m0.prim2cons(P)
+        r0 = [x.copy() for x in d0.rhs(field.fdata(m0, msh, Q))]
+        r1 = d1.rhs(field.fdata(m1, msh, Q))
+    except BaseException as e:
+        print("  raised %s: %s" % (type(e).__name__, str(e)[:100]))
+        return False
+    ok = True
+    for k in range(len(r0)):
+        want = r0[k] + (src[k](msh.centers(), Q) if src and src[k] else 0.0)
+        if not close(r1[k], want):
+            show(kind=kind, pattern=pattern, comp=k, got=np.asarray(r1[k]).tolist()[:3], want=np.asarray(want).tolist()[:3])
+            ok = False
+    return ok
+
+
+def nozzle_geom_clause(vals):
+    import flowdyn.mesh as mesh, flowdyn.modeldisc as md, flowdyn.field as field, flowdyn.xnum as xnum, flowdyn.modelphy.euler as eu
+    n = 7
+    msh = mesh.morphedmesh(ncell=n, length=1.0, morph=lambda x: x + 0.4 * x * x)
+    law = lambda x: 1.0 + 0.3 * np.sin(3 * x)
+    g = 1.4
+    m = eu.nozzle(law, gamma=g)
+    d = md.fvm1d(m, msh, xnum.extrapol2())
+    P = _random_prim("nozzle", n, seed=5)
+    Q = m.prim2cons(P)
+    res = d.rhs(field.fdata(m, msh, Q))
+    xf, xc = msh.xf, msh.xc
+    gt = (law(xf[1:]) - law(xf[:-1])) / ((xf[1:] - xf[:-1]) * law(xc))
+    r, u, p = P
+    H = g / (g - 1) * p / r + u * u / 2
+    fl = [r * u, r * u * u, r * u * H]
+    ok = True
+    for k in range(3):
+        bal = -(d.flux[k][1:] - d.flux[k][:-1]) / (xf[1:] - xf[:-1])
+        ok = ok and close(res[k], bal - gt * fl[k])
+    return ok
